@@ -10,21 +10,21 @@ CLAIMS = {
     # id: (technique, level text, level note, design ref)
     "C18": (
         "AST table extraction + own GF(2)[x] arithmetic; closed-form (skeleton/leaf) matching; special-case lint",
-        "Static analysis of algebra.py: every tabulated field modulus literal is decided primitive of its degree by the checker's own bitmask arithmetic; the designated primitive element is a unit in every tabulated field; the operators carrying the field/ring laws match reasoned closed forms; no value-keyed special cases. Decides these structural necessary conditions, not the ring/field laws as value identities. evaluate and lcm are tabulated as well.",
+        "Static analysis of algebra.py: every tabulated field modulus literal is decided primitive of its degree by the checker's own bitmask arithmetic; the designated primitive element is a unit in every tabulated field; the operators carrying the field/ring laws match reasoned closed forms; no value-keyed special cases. Decides these structural necessary conditions, not the ring/field laws as value identities. evaluate, lcm, trace, conjugates and minimal_polynomial are tabulated with own field arithmetic over GF(4)..GF(64).",
         "Trusted: CPython ast, the checker's gf2.py (cross-checked in the self-test), the reference closed forms listed in props/c18.py. Unknown code shapes give exit 2 (no verdict), never a VIOLATION.",
         "DESIGN.md §2 C18",
     ),
 }
 
 CLAIMS["C15"] = (
-    "polarity abstract interpretation (monotonicity lattice per seed, sign domain, constellation-idiom tags) over every registered soft demodulator and every LLR consumer",
+    "polarity abstract interpretation (monotonicity lattice per seed, sign domain, constellation-idiom tags) over every registered soft demodulator and every LLR consumer; lint: mode tests of an unconverted input type against str-Enum members are by value, not identity",
     "Whole-repository LLR-polarity convention check: the soft branch of every registered demodulator is interpreted abstractly (helpers in context) and its LLR must be decreasing in the distance to the bit-0 points and increasing in the distance to the bit-1 points (closed forms: increasing in the amplitude that carries bit 0); every LLR-mode thresholder path, sign_to_bin/llr_to_bits and every sign-decision site in the soft decoders must be decreasing in the LLR. The domain abstracts the input away, so agreement is decided for all inputs at once. Decides the polarity convention (a necessary condition), not numerical LLR values. exp(t) / (c + exp(t)) quotients with unclamped t are reported (NaN inside the stated LLR range).",
     "Trusted: the transfer functions of polarity.py for the torch operations met, the positive-parameter table (noise_var, confidence_scaling, weights, normalisation), idioms frozen in DESIGN.md §1.2 (scalar statistic = constant; masked literal stores; vote count == len). Unknown operations reaching an obligation give exit 2, never a VIOLATION.",
     "DESIGN.md §2 C15",
 )
 
 CLAIMS["C17"] = (
-    "loop-shape recognisers, stage-provenance abstract interpretation (term domain), order-taint of completion-ordered containers, first-match-returns",
+    "loop-shape recognisers, stage-provenance abstract interpretation (term domain; accumulation loops read as the sum of the stacked list, loops over literal attribute-name tuples unrolled), alias rule (no in-place update of a stage output through a second name), order-taint of completion-ordered containers, first-match-returns",
     "Order/typestate analysis of every pipeline model: sequential containers must be the exact threaded loop over the declared list with arguments forwarded; DeepJSCC/channel-code stage lists are checked by parameter identity; for the multiple-access, Wyner-Ziv and feedback models an abstract interpreter over stage terms computes through which components the result passed and compares it with the declared composition (each stage once, in order, superposition before one constraint and one channel use, exactly max_iterations rounds); in the parallel model a container filled in as_completed() order may reach the aggregator/return only after being rebuilt in declared order; the branching model returns inside the first true condition in registration order. Schedules and inputs do not occur in the argument, so it covers all of them; user callables are not analysed. add_step must append on every non-raising path.",
     "Trusted: provenance.py's treatment of calls (stage attributes/lists named in props/c17.py), dict insertion order and list order semantics of CPython, concurrent.futures.as_completed yielding in completion order. Unknown loop shapes -> exit 2.",
     "DESIGN.md §2 C17",
@@ -86,7 +86,7 @@ CLAIMS["C01"] = (
     "DESIGN.md §2 C01",
 )
 CLAIMS["C04"] = (
-    "verified-return rule on the right-inverse helper, operand analysis of inverse_encode, block-reshape rules (apply_blockwise and the Hamming / Reed-Muller overrides)",
+    "whole-function own-arithmetic evaluation of inverse_encode (three codes, one with a dependent parity-check row; 1-D to 3-D layouts; invalid length), verified-return rule on the right-inverse helper, operand analysis of inverse_encode (fallback), block-reshape rules (apply_blockwise and the Hamming / Reed-Muller overrides)",
     "Decides structural necessary conditions of 'inverse(encode(m)) = m': every return of compute_right_pseudo_inverse is exact (identity-prefix selection under its own test, GF(2) elimination result with rank check) or verified on the returned object - rounded real pseudo-inverses, shape-keyed constants and fallbacks are violations; systematic encoders register the selection matrix of their information set after the parent constructor; inverse_encode multiplies blocks of n by generator_right_inverse mod 2 and returns the syndrome of the same input; extract_message and project_word delegate / select per block; apply_blockwise asserts divisibility, views (*lead, L//b, b) and flattens back to (*lead, -1); the Hamming and Reed-Muller inverse overrides keep (-1, n) rows and (*lead, -1) results and validate the length. The round trip as a value identity for arbitrary G is not decided.",
     "Trusted: recognisers in props/c04.py (unknown shapes -> exit 2).",
     "DESIGN.md §2 C04",
